@@ -26,7 +26,7 @@ def to_cell(v):
         return float(v[1:])
     return v
 
-STR_POOL = ["", "x", "a/b", "hello world", "é", "0", "a"]
+STR_POOL = ["", "x", "a/b", "hello world", "é", "0", "a", "NaN", " NAN "]   # (not "nan": astype(str) of a missing cell)
 
 
 def norm_val(v):
